@@ -1,5 +1,6 @@
 import PlushModel
 import PlushProofs.Lib.LexerLines
+import PlushProofs.Lib.LexerShift
 import PlushProofs.Props.C05
 /-!
   C15 — every template error names the line of the failing tag, invariant under shifting.
@@ -71,5 +72,14 @@ theorem C15_line_counter_exact (input : Array UInt8) (n : Nat) :
 theorem C15_token_line (l : LX) (w : l.WF) :
     (LX.nextInsideToken (l.input.size + 2) l).1.line = 1 + LX.countLF l.input (LX.tokStart (l.input.size + 2) l) :=
   LX.inside_token_line _ l w (by omega)
+
+/-- SHIFT INVARIANCE at the scanner: two scanner states that see the same bytes ahead (any two inputs, any
+    offsets) produce tokens whose line numbers differ by exactly the difference of the two line counters. So
+    whatever is inserted in front of a tag moves every later token's line by the number of line feeds inserted —
+    text, tags, strings and comments alike — and changes nothing else about the tokens (`C18_suffix_determinism`). -/
+theorem C15_shift_scanner (l l' : LX) (hs : LX.Sim l l') :
+    ((LX.nextInsideToken (l'.input.size + 2) l').1.line : Int) - (LX.nextInsideToken (l.input.size + 2) l).1.line
+      = (l'.line : Int) - l.line :=
+  LX.token_line_shift l l' hs
 
 end Plush
